@@ -104,7 +104,129 @@ func (p c02) longRing(c *core.Ctx) {
 	c.Nontrivial(fmt.Sprintf("longring|%d|%v", n, closed))
 }
 
+// lazyAfterStart: a cycle made of lazy components only, which no eager component refers to: nothing of it is
+// created during the start; the first by-name lookup of a member afterwards creates the whole cycle like a
+// cycle met during the start - it terminates, and every member holds its neighbours.
+func (p c02) lazyAfterStart(c *core.Ctx) {
+	g := world.NewG(c.Rng)
+	lazy := []int{7, 8, 11, 14}
+	n := 2 + c.Rng.Intn(4)
+	for i := 0; i < n; i++ {
+		g.AddNode(lazy[c.Rng.Intn(len(lazy))], g.FreshName(i))
+	}
+	type edge struct {
+		from, to int
+		slot     string
+	}
+	var edges []edge
+	for i := 0; i < n; i++ {
+		if s := g.EdgeByName(i, (i+1)%n, "", "iface"); s != "" {
+			edges = append(edges, edge{i, (i + 1) % n, s})
+		} else {
+			return
+		}
+	}
+	for x, nx := 0, c.Rng.Intn(3); x < nx; x++ {
+		a, b := c.Rng.Intn(n), c.Rng.Intn(n)
+		if a == b {
+			continue
+		}
+		if s := g.EdgeByName(a, b, "", "iface"); s != "" {
+			edges = append(edges, edge{a, b, s})
+		}
+	}
+	for x := 0; x < c.Rng.Intn(3); x++ {
+		g.AddRandomNode(world.TypesEagerPlain, 0.2)
+	}
+	g.ShuffleOrders()
+	r := world.Start(g.Sc, world.Options{})
+	c.Count("starts", 1)
+	c.Count("lazy_cycle_after_start_cases", 1)
+	detail := failDetail(g.Sc, r, nil)
+	if r.Outcome() != "ok" {
+		c.Fail("", "start with an unreferenced lazy cycle did not succeed: "+core.Short(r.OutcomeDetail(), 300), detail)
+		return
+	}
+	for i := 0; i < n; i++ {
+		if k := countEvents(r, "init", g.Sc.Nodes[i].DisplayName()) + countEvents(r, "aps", g.Sc.Nodes[i].DisplayName()); k > 0 {
+			c.Fail("", fmt.Sprintf("lazy component %q, which nothing eager refers to, was initialised during the start", g.Sc.Nodes[i].DisplayName()), detail)
+			return
+		}
+	}
+	entry := c.Rng.Intn(n)
+	var got any
+	var err error
+	r.Guard(func() { got, err = r.App.GetComponentByName(g.Sc.Nodes[entry].DisplayName()) })
+	if r.Panic != nil || r.Diverge != nil {
+		c.Fail("", fmt.Sprintf("lookup of a member of a lazy cycle of %d components after the start does not terminate normally: %s", n, core.Short(r.OutcomeDetail(), 300)), detail)
+		return
+	}
+	if err != nil || got != any(r.Nodes[entry]) {
+		c.Fail("", fmt.Sprintf("lookup of a member of a lazy cycle of %d components after the start: %v (%v)", n, got, err), detail)
+		return
+	}
+	for _, e := range edges {
+		refs, _ := r.SlotRefs(r.Nodes[e.from], e.slot)
+		if len(refs) != 1 || refs[0].Nil || refs[0].Obj != any(r.Nodes[e.to]) {
+			c.Fail("", fmt.Sprintf("after the lookup created the lazy cycle, %s.%s does not hold %s", g.Sc.Nodes[e.from].DisplayName(), e.slot, g.Sc.Nodes[e.to].DisplayName()), detail)
+			return
+		}
+	}
+	for i := 0; i < n; i++ {
+		ti := world.Palette[g.Sc.Nodes[i].Type]
+		nm := g.Sc.Nodes[i].DisplayName()
+		if ti.Init && countEvents(r, "init", nm) != 1 {
+			c.Fail("", fmt.Sprintf("member %q of the lazy cycle was initialised %d times by the lookup", nm, countEvents(r, "init", nm)), detail)
+			return
+		}
+	}
+	c.Nontrivial(fmt.Sprintf("lazyafter|%d|%s", n, g.Sc.GraphSig()))
+}
+
+// embeddedCycle: a cycle one direction of which is a tagged anonymous field (the decorator layout
+// `struct{ Service `wire:"core"` }`): core -> decorator by name, decorator -> core through the embedded interface.
+func (p c02) embeddedCycle(c *core.Ctx) {
+	g := world.NewG(c.Rng)
+	core_ := g.AddNode([]int{0, 1, 3}[c.Rng.Intn(3)], "mix-dep")
+	g.SetTag(core_, []string{"Any0", "Any1"}[c.Rng.Intn(2)], "wire", "embed-iface-holder")
+	for x, nx := 0, c.Rng.Intn(3); x < nx; x++ {
+		k := g.AddRandomNode(world.TypesEagerPlain, 0.2)
+		if c.Rng.Intn(2) == 0 {
+			g.EdgeByName(k, core_, "", "iface")
+		}
+	}
+	g.ShuffleOrders()
+	h := &world.EmbedIfaceHolder{}
+	r := world.Start(g.Sc, world.Options{Extra: []any{h}})
+	c.Count("starts", 1)
+	c.Count("embedded_cycle_starts", 1)
+	detail := failDetail(g.Sc, r, nil)
+	if r.Outcome() != "ok" {
+		c.Fail("", "cycle through a tagged embedded interface did not start: "+core.Short(r.OutcomeDetail(), 300), detail)
+		return
+	}
+	var back any
+	for slot := range g.Sc.Nodes[core_].Tags {
+		if refs, _ := r.SlotRefs(r.Nodes[core_], slot); len(refs) == 1 && !refs[0].Nil && strings.HasPrefix(slot, "Any") {
+			back = refs[0].Obj
+		}
+	}
+	if h.IA != any(r.Nodes[core_]) || back != any(h) {
+		c.Fail("", fmt.Sprintf("cycle core <-> decorator: the decorator's embedded interface holds %v (expected the core), the core's by-name point holds %v (expected the decorator)", h.IA, back), detail)
+		return
+	}
+	c.Nontrivial("embeddedcycle|" + g.Sc.GraphSig())
+}
+
 func (p c02) Run(c *core.Ctx) {
+	if c.Index >= p.enumCount(c.Tier) && c.Index%40 == 9 {
+		p.embeddedCycle(c)
+		return
+	}
+	if c.Index >= p.enumCount(c.Tier) && c.Index%40 == 29 {
+		p.lazyAfterStart(c)
+		return
+	}
 	if c.Index >= p.enumCount(c.Tier) && c.Index%40 == 17 { // (the enumerated part stays complete)
 		p.ppCycle(c)
 		return
